@@ -42,6 +42,13 @@ def gen_decorator(rnd, idx, style):
     """Source of a wrapping function d<idx>(func, <own>, *args, **kwargs).
     own parameters: positional (like the repository's tests) or keyword-only."""
     name = 'd%d' % idx
+    if style == 'wrapper_decorator_partial':
+        # the wrapping callable is a functools.partial object: a generic wrapper specialised by a bound keyword
+        # (which stays overridable: the partial advertises it as a keyword-only parameter with that default)
+        own_name = 'note%d_' % idx
+        src = ('def %s_base(func, *args, %s, **kwargs):\n    return (%r, %s, func(*args, **kwargs))\n'
+               '%s = functools.partial(%s_base, %s=%d)\n') % (name, own_name, name, own_name, name, name, own_name, 70 + idx)
+        return name, src, 0, [], [own_name], 'wrapper_decorator'
     own = []
     if rnd.random() < 0.7:
         n_own = rnd.randint(0, 2)
@@ -77,7 +84,8 @@ def check_stack(ctx, case_seed):
     ctx.count('C13.stacks')
     decos = []
     for i in range(depth):
-        style = rnd.choice(('decorator', 'decorator', 'wrapper_decorator', 'wrapper_decorator_args'))
+        style = rnd.choice(('decorator', 'decorator', 'wrapper_decorator', 'wrapper_decorator_args', 'wrapper_decorator',
+                            'decorator', 'wrapper_decorator_partial'))
         if style == 'wrapper_decorator_args' and (i != depth - 1 or (
                 sigs.positional_capacity(fparams) == 0 and not sigs.has_kind(fparams, VA))):
             style = 'wrapper_decorator'
@@ -126,7 +134,19 @@ def check_stack(ctx, case_seed):
     deco_lines = ['@D%d' % i for i in range(depth)]
     if dress_line:
         deco_lines.append(dress_line)
-    if placement == 'function':
+    peeked = False
+    if placement == 'function' and depth >= 2 and rnd.random() < 0.35:
+        # built level by level, and somebody (a registry, a doc tool) looks at every intermediate object
+        # before the next wrapper goes on top
+        peeked = True
+        ctx.count('C13.stacks_inspected_between_levels')
+        lines += deco_lines[depth - 1:] + [fdef]
+        for i in reversed(range(depth - 1)):
+            lines.append('_peek = (inspect.signature(%s), __import__("sigtools").signature(%s))' % (fn, fn))
+            lines.append('%s = D%d(%s)' % (fn, i, fn))
+        lines.append('plain = None')
+        lines.append('def plain_%s(%s): return (%r, dict(locals()))' % (fn, sigs.render(fp), fn))
+    elif placement == 'function':
         lines += deco_lines + [fdef, 'plain = None']
         lines.append('def plain_%s(%s): return (%r, dict(locals()))' % (fn, sigs.render(fp), fn))
     else:
@@ -148,7 +168,7 @@ def check_stack(ctx, case_seed):
     rp = dict(workload='wrap', case_seed=case_seed, source=src)
     w = {'decorated': 'def f(%s)' % sigs.render(fp), 'placement': placement, 'style': style,
          'decorators': [d[1].splitlines()[0] for d in decos], 'dress': dress_line or 'plain',
-         'instances_compare_equal': value_eq}
+         'instances_compare_equal': value_eq, 'inspected_between_levels': peeked}
     ctx.count('C13.dress.' + dress)
     try:
         g = sigs.compile_module(src, tag='vwrap')
@@ -458,8 +478,13 @@ def check_while_another_thread_computes(ctx):
         t.start()
         try:
             if not g['entered'].wait(10):
-                ctx.inconclusive.append('C13 threads: the worker never reached the forger')
-                return
+                # (the worker came back without going through the forger -- nothing to observe "meanwhile")
+                ctx.count('C13.worker_did_not_park')
+                t.join(20)
+                if result.get('a') != want['inspect']:
+                    V(ctx, 'signature-differs-while-another-thread-computes', 'a second thread got another answer than the first',
+                      {'object': name, 'usual': want['inspect'], 'got': result.get('a')}, dict(workload='wrap-threads'))
+                continue
             for label, retr in (('inspect', inspect.signature), ('sigtools', sigtools.signature)):
                 ctx.evaluated()
                 ctx.count('C13.retrieved_while_another_thread_computes')
